@@ -48,8 +48,16 @@ type Seg struct {
 	Off, Len int
 }
 
+// Fire is one rule firing: Kind 1 emit, 2 discard, 3 accumulate; Mode and
+// Depth are the current mode index and the mode-stack depth after all of the
+// rule's actions took effect.
+type Fire struct {
+	Kind, Mode, Depth int
+}
+
 type Result struct {
-	Toks []Token // up to and including the first ERROR or EOF
+	Toks  []Token // up to and including the first ERROR or EOF
+	Fires []Fire  // every rule firing, in order
 	// Flags about the run up to the end of Toks:
 	PopEmpty   bool // a @pop_mode ran on an empty stack (behaviour outside the properties)
 	EpsMatch   bool // some rule acted on an empty match
@@ -167,11 +175,14 @@ func (l *Lexer) Run(in []byte) *Result {
 		switch {
 		case act.Emit >= 0:
 			res.Toks = append(res.Toks, Token{Type: act.Emit, Off: start, Len: off - start})
+			res.Fires = append(res.Fires, Fire{1, mode, len(stack)})
 			start = off
 		case act.Discard:
+			res.Fires = append(res.Fires, Fire{2, mode, len(stack)})
 			start = off
 		default:
 			// accumulate: keep start
+			res.Fires = append(res.Fires, Fire{3, mode, len(stack)})
 		}
 	}
 }
